@@ -57,6 +57,30 @@ func branchSelectorsIn(p *load.Prog, fd *ast.FuncDecl, conds []string, a, b stri
 			if cd == nil || cd.Body == nil || cd == fd || sig == nil {
 				return true
 			}
+			// a method of the value that carries the flag as a field
+			// (en.optionLiteral(opt) with en.Unsigned inside): the field is found
+			// there by its name
+			if sel, isSel := ast.Unparen(call.Fun).(*ast.SelectorExpr); isSel && sig.Recv() != nil {
+				rt := info.TypeOf(sel.X)
+				if pt, isP := rt.(*types.Pointer); isP {
+					rt = pt.Elem()
+				}
+				if st, isSt := rt.Underlying().(*types.Struct); isSt {
+					carries := false
+					for k := 0; k < st.NumFields(); k++ {
+						for _, cnd := range conds {
+							if st.Field(k).Name() == cnd {
+								carries = true
+							}
+						}
+					}
+					if carries {
+						cn, cbad := branchSelectorsIn(p, cd, conds, a, b, nil, depth+1)
+						n += cn
+						bad = append(bad, cbad...)
+					}
+				}
+			}
 			for i, arg := range call.Args {
 				if isFlag(arg) && i < sig.Params().Len() {
 					cn, cbad := branchSelectorsIn(p, cd, conds, a, b, map[types.Object]bool{sig.Params().At(i): true}, depth+1)
